@@ -297,7 +297,15 @@ def gen_chain(g, n_target=None, force_worm=None, self_locking=None,
              'b': None, 'E': None}
         i = add(e)
         decls.append({'op': 'joint', 'm': prev, 's': i})
-    if not allow_reroute and g.chance(0.25):
+    redecl = [d for d in decls if d['op'] == 'gear']
+    if redecl and not allow_reroute and g.chance(0.08):
+        # the same pair declared as a mating, then rigidly joined, then as a
+        # mating again (what counts is the last declaration)
+        d0 = r.choice(redecl)
+        i0 = decls.index(d0)
+        decls[i0:i0] = [dict(d0, eff=round(r.uniform(0.5, 1.0), 3)),
+                        {'op': 'joint', 'm': d0['m'], 's': d0['s']}]
+    elif not allow_reroute and g.chance(0.25):
         # the relations of one chain can be declared in any order
         # (downstream first, or at random): an idler keeps the role of the
         # mating declared last
@@ -891,6 +899,21 @@ def gen_grid(g):
            {'kind': 'SpurGear', 'name': 'gear', 'z': z1,
             'J': g.q('InertiaMoment', J * 0.5), 'm': None, 'b': None, 'E': None}]
     decls = [{'op': 'joint', 'm': 0, 's': 1}]
+    held = g.chance(0.08)
+    if held:
+        # a self-locking worm drive; with the duty cycle at 0 and no motor
+        # control it is held from the first instant on and the axis must
+        # still run to T
+        els = [els[0],
+               {'kind': 'WormGear', 'name': 'worm', 'starts': 1,
+                'J': g.q('InertiaMoment', J * 0.25),
+                'beta': [10.0, 'deg'], 'alpha': [20.0, 'deg'], 'd': None},
+               {'kind': 'WormWheel', 'name': 'wheel', 'z': z1,
+                'J': g.q('InertiaMoment', J * 0.25),
+                'beta': [10.0, 'deg'], 'alpha': [20.0, 'deg'],
+                'm': None, 'b': None}]
+        decls = [{'op': 'joint', 'm': 0, 's': 1},
+                 {'op': 'worm', 'm': 1, 's': 2, 'f': 0.4}]
     scn = {'seed': g.seed, 'profile': 'grid', 'elements': els, 'decls': decls,
            'motor': 0,
            'load': {'terms': [{'t': 'const', 'c': Tmax * r.uniform(-0.5, 0.9)}],
@@ -898,6 +921,8 @@ def gen_grid(g):
            'init': {'position': g.q('AngularPosition', 0.0),
                     'speed': g.q('AngularSpeed', r.uniform(0, 1) * w0),
                     'pwm': None}}
+    if held:
+        scn['init']['pwm'] = r.choice([0, 0, 0.0, 1])
     sched = []
     for j, op in enumerate(runs):
         if j > 0 and g.chance(0.15):
@@ -1714,11 +1739,15 @@ def gen_decl(g):
             elif kd in ('eff_range', 'eff_type') and len(sp) >= 2:
                 a, b = r.sample(sp, 2)
                 bad = r.choice([1.5, -0.1, 2, -1, 1.0000001]) \
-                    if kd == 'eff_range' else r.choice(['0.9', None, [0.9]])
+                    if kd == 'eff_range' else r.choice(['0.9', None, [0.9],
+                                                       {'fraction': [9, 10]},
+                                                       {'np': 'float32', 'v': 0.9},
+                                                       {'np': 'int64', 'v': 1}])
                 d = {'op': 'gear', 'm': a, 's': b, 'eff': bad}
             elif kd in ('f_range', 'f_type') and wg and ww:
                 bad = r.choice([1.5, -0.1, 2, -1]) if kd == 'f_range' \
-                    else r.choice(['0.2', None])
+                    else r.choice(['0.2', None, {'fraction': [1, 5]},
+                                   {'np': 'float32', 'v': 0.2}])
                 a, b = r.choice(wg), r.choice(ww)
                 if g.chance(0.5):
                     a, b = b, a
@@ -1982,7 +2011,7 @@ def gen_conv(g):
         scn, model, chain = base_scenario(
             g, 'conv', n_target=r.choice([2, 3, 4, 5, 6, 8]),
             force_worm=True if g.chance(0.25) else False, self_locking=False,
-            data_level=0)
+            data_level=0, allow_reroute=g.chance(0.12))
     mot = scn['elements'][0]
     msi = model.e[0]
     k1, R, E, J = rm.rate_constant(model, chain)
@@ -2112,6 +2141,7 @@ def gen_badparams(g):
     cases = [
         ('no_load_speed<=0', 'DCMotor', dict(good_motor, w0=q('AngularSpeed', r.choice([0.0, -1.0, -300.0])))),
         ('maximum_torque<=0', 'DCMotor', dict(good_motor, Tmax=q('Torque', r.choice([0.0, -0.1, -5.0])))),
+        ('no_load_speed<=0 and maximum_torque<=0', 'DCMotor', dict(good_motor, w0=q('AngularSpeed', r.choice([-1.0, -300.0])), Tmax=q('Torque', r.choice([-0.1, -5.0])))),
         # (each optional current alone, or together with the other one)
         ('no_load_current<0', 'DCMotor', dict(good_motor, i0=q('Current', r.choice([-0.01, -1.0])),
                                               **({'imax': q('Current', 2.0)} if g.chance(0.5) else {}))),
